@@ -166,13 +166,13 @@ def scenario(x, p):
 DATA_SECTIONS = ('gfx', 'gff', 'map', 'sfx', 'music')
 
 
-def cart_text(tag, label=False):
+def cart_text(tag, label=False, code=None):
     """A .p8 file (written by the real writer) whose six sections all carry
     the tag."""
     from pico8.game.formatter.p8 import P8Formatter
     from pico8.lua import lua
     g = ggame.Game.make_empty_game(filename='x.p8')
-    g.lua = lua.Lua.from_lines([b'v=%d\n' % tag], version=8)
+    g.lua = lua.Lua.from_lines([code or (b'v=%d\n' % tag)], version=8)
     for i, sec in enumerate(DATA_SECTIONS):
         d = getattr(g, sec)._data
         d[0] = tag
